@@ -21,6 +21,12 @@ def gen_proc(rng, k, generated=False):
     w = g.workflow(mid)
     if rng.chance(1, 2):
         w["env"] = {"e1": 10 + k}
+    if rng.chance(1, 3):
+        # the process env is also written at run time (by a script of the first step, before anything runs in parallel), and read by a later interrupt
+        w.setdefault("env", {})["stage"] = "draft"
+        w["steps"].insert(0, {"id": "s0", "acts": [{"id": "a0c", "uses": gen.CODE, "params": f'$env.stage = "st{k}"; $env.count = {k} * 2;'},
+                                                    {"id": "a0", "uses": gen.IRQ, "key": "ka0", "inputs": {"stage": "{{ $env.stage }}", "count": "{{ $env.count }}"}}]})
+        w["steps"].append({"id": "s99", "acts": [{"id": "a99", "uses": gen.IRQ, "key": "ka99", "inputs": {"stage": "{{ $env.stage }}", "count": "{{ $env.count }}"}}]})
     if generated:
         # some interrupts become generators of acts (run-time nodes, which a reload has to bring back too)
         def walk(steps):
@@ -114,6 +120,11 @@ def run(ctx):
             w, ans = gen_proc(rng.fork(f"m{k}"), k + 1, generated=(i % 3 == 2))
             models.append(w)
             answers_by_model.append(ans)
+        if i % 4 == 3:
+            # a model that finishes by itself: kept, finished processes share the cache with the waiting ones
+            models.append({"id": f"m{nmodels + 1}", "steps": [{"id": "qs", "acts": [{"id": "qa", "uses": gen.MSG, "key": "kq"}]}]})
+            answers_by_model.append({})
+            nmodels += 1
         procs = []
         for j in range(nproc):
             k = j % nmodels
@@ -125,12 +136,21 @@ def run(ctx):
         cfg = {"keep": True, "store": store, "mode": "free", "workers": workers, "cache_cap": cap, "stuck_secs": 90}
         answers = {pid: answers_for(answers_by_model[k], int(pid[1:])) for pid, k, _ in procs}
         starts = [[models[k]["id"], v] for _, k, v in procs]
+        rounds0 = None
         if i % 4 == 3:
             # every process is dropped from the cache while it waits, and all come back in one batch (the refill of the cache that a tick or the
-            # end of a process triggers), before the clients go on
+            # end of a process triggers), before the clients go on; some of the waiting interrupts carry a timeout rule that this tick fires
             cfg["cache_cap"] = cap = rng.pick([2 * nproc, 1024])
-            body = [["swarm", {"starts": starts, "parallel": True, "answers": answers, "rounds": rng.below(2)}]] + \
-                   [["evict", pid] for pid, _, _ in procs] + [["tick", 1000], ["swarm", {"starts": [], "parallel": True, "answers": answers}]]
+            rounds0 = rng.below(2)
+            for mw in models:
+                if rng.chance(1, 2):
+                    for st_ in mw["steps"]:
+                        first = next((a for a in st_.get("acts", []) if a["uses"] == gen.IRQ and "timeout" not in a and "catches" not in a), None)
+                        if first:
+                            first["timeout"] = [{"on": "1s", "steps": [{"id": "tmo_" + first["id"], "acts": [{"id": "tmoa_" + first["id"], "uses": gen.MSG, "key": "late_" + first["id"]}]}]}]
+                            break
+            body = [["swarm", {"starts": starts, "parallel": True, "answers": answers, "rounds": rounds0}]] + \
+                   [["evict", pid] for pid, k_, _ in procs if k_ != nmodels - 1 or rng.chance(1, 3)] + [["tick", 1000], ["swarm", {"starts": [], "parallel": True, "answers": answers}]]
         else:
             body = [["swarm", {"starts": starts, "parallel": True, "answers": answers}]]
         crowd = {"id": f"c13-{i}-crowd", "config": cfg, "models": models, "ops": [["deploy", k] for k in range(nmodels)] + body}
@@ -139,8 +159,11 @@ def run(ctx):
         scs.append(crowd)
         solos = []
         for pid, k, v in procs:
+            solo_body = [["swarm", {"starts": [[models[k]["id"], v]], "parallel": False, "answers": {pid: answers[pid]}}]] if rounds0 is None else \
+                [["swarm", {"starts": [[models[k]["id"], v]], "parallel": False, "answers": {pid: answers[pid]}, "rounds": rounds0}], ["tick", 1000],
+                 ["swarm", {"starts": [], "parallel": False, "answers": {pid: answers[pid]}}]]
             solo = {"id": f"c13-{i}-{pid}", "config": {"keep": True, "store": "mem", "mode": "free", "workers": 1, "cache_cap": 1024}, "models": [models[k]],
-                    "ops": [["deploy", 0], ["swarm", {"starts": [[models[k]["id"], v]], "parallel": False, "answers": {pid: answers[pid]}}]]}
+                    "ops": [["deploy", 0]] + solo_body}
             solos.append(len(scs))
             scs.append(solo)
         meta.append((len(scs) - len(solos) - 1, solos, procs, cap, workers, store))
